@@ -32,3 +32,10 @@ class NestedUnionHolder(State):
 
     value: MaybeThing | None
     tag: int = 0
+
+
+class TupleHolder(State):
+    """the missing value sits inside a fixed-size tuple whose element annotation admits it"""
+
+    pair: tuple[Any | Missing, int]
+    tag: int = 0
